@@ -18,9 +18,11 @@ PO = ["X", "O", "U", "x", "o", "u"]
 # small pools so that the same keys meet again; the boundary keys of the documented ranges are among them (499 is the last requirement constraint of the
 # first range, 500 / 900 the first / last hint, 999 the last format constraint)
 RC, HINTS, FCS = ["1", "2", "3", "4", "499"], ["501", "502", "900", "500"], ["901", "902", "999"]
-PACKAGES = {"1P": "[1] U [2]", "2P": "[3]", "3P": "[1][901]", "4P": "[501]", "9P": None}
+PACKAGES = {"1P": "[1] U [2]", "2P": "[3]", "3P": "[1][901]", "4P": "[501]", "5P": "[UB1]", "6P": "[UB1] U [UB2]", "9P": None}
 # package definitions vary from one content evaluation result to the next (same key, other expression)
-PACKAGE_CHOICES = {"1P": ["[1] U [2]", "[2]", "[1] O [4]"], "2P": ["[3]", "[4]", "[1] X [3]"], "3P": ["[1][901]", "[2][902]"], "4P": ["[501]", "[502]"], "9P": [None]}
+PACKAGE_CHOICES = {"1P": ["[1] U [2]", "[2]", "[1] O [4]"], "2P": ["[3]", "[4]", "[1] X [3]"], "3P": ["[1][901]", "[2][902]"], "4P": ["[501]", "[502]"],
+                   # packages whose expression brings time conditions along (they become format constraints once the package is expanded)
+                   "5P": ["[UB1]", "[UB2]"], "6P": ["[UB1] U [UB2]", "[UB3]"], "9P": [None]}
 CURRENT_PACKAGES = dict(PACKAGES)
 EXTRA_ATTRS = [False]  # whether to_maus fills the optional attributes ahb_line_index / section_name (set per case by validation_cases / reset_cer)
 EMPTY_HINT = [0.0]   # probability that a hint of a generated content evaluation result has the empty text (set by the checks that want it)
@@ -34,7 +36,7 @@ def cond_expr(rng, kind="any"):
     if kind == "simple":
         return f"[{rng.choice(RC)}]"
     if kind == "pkg":
-        return rng.choice(["[1P]", "[2P] U [4]", "[3P]", "[4] O [1P]", "[1P1..2] U [2]", "[UB1]", "[UB3] U [1]", "[2P][902]"])
+        return rng.choice(["[1P]", "[2P] U [4]", "[3P]", "[4] O [1P]", "[1P1..2] U [2]", "[UB1]", "[UB3] U [1]", "[2P][902]", "[1] U [5P]", "[2][5P]", "[3] U [6P]"])
     for _ in range(50):
         t = exprs.random_dom_tree(rng, rng.randint(1, 5), RC, HINTS, FCS)
         if (kind == "valid") == exprs.valid(t):
